@@ -519,7 +519,16 @@ func ScenarioPlans(r *mrand.Rand, pool *Pool, n int) []*Plan {
 		e := CertSpec{ID: pool.ReserveID(), KeyID: k, Window: core.Pick(r, "current", "past", "forever"), KidText: kid2, KidKind: kk2}
 		p.Certs = []CertSpec{c, e}
 		sign := func(b uint64, d uint64) *Op { return &Op{Kind: OpSign, Blob: b, DataID: d} }
-		switch i % 6 {
+		switch i % 7 {
+		case 6: // an out-of-window hardware certificate in memory while the agent reports nothing at all (the
+			// empty-report exception is for the keyless rule only, not for validity)
+			p.Class = "scenario-invalid-in-memory-agent-empty"
+			c.Window = core.Pick(r, "past", "future", "zero", "one-second-ago", "inverted")
+			e.Window = core.Pick(r, "current", "forever")
+			p.Certs = []CertSpec{c, e}
+			p.Initial = []uint64{k}
+			p.Ops = []*Op{op(OpAddHard, c.ID), op(OpAddHard, e.ID), op(OpDirectRemove, k), op(core.Pick(r, OpList, OpSigners), 0), op(OpSigners, 0), op(OpList, 0),
+				op(OpDirectAdd, k), op(OpAddHard, c.ID), op(OpRemove, k), sign(c.ID, 1), op(OpList, 0)}
 		case 5: // everything the agent still reports is an out-of-window certificate, and the hardware certificate's key is gone
 			p.Class = "scenario-only-invalid-certificates-reported"
 			kx, kkx := GenKeyID(r)
